@@ -26,6 +26,33 @@ VALUE_CHANGING = {
 }
 
 
+CASTING = {"asarray", "array", "asanyarray", "full_like", "zeros_like", "ones_like", "empty_like"}
+
+
+def _value_ops(v_elt, plain, ns):
+    """Operations applied to the transition result `plain` inside the element term `v_elt`.
+
+    Returns (all operation names on the path, the value-changing ones).  A conversion call
+    (`asarray`, `array`) with an explicit dtype is value-changing: it truncates or rounds."""
+    ops, bad = set(), set()
+
+    def contains(t):
+        return any(s == plain for s in walk(t))
+
+    for s in walk(v_elt):
+        if s[0] != "call" or s == ns or not contains(s):
+            continue
+        name = (callee_name(s) or (s[1][2] if s[1][0] == "attr" else "")).split(".")[-1]
+        if not name:
+            continue
+        ops.add(name)
+        if name in VALUE_CHANGING:
+            bad.add(name)
+        elif name in CASTING and (kw(s, "dtype") is not None or len(s[2]) > 1):
+            bad.add(f"{name}(dtype=...)")
+    return ops, bad
+
+
 def sim_loop(prog):
     fr = prog.frame(SIM)
     loops = [lp for lid, lp in prog.loops.items() if lp.func == SIM and "@" not in lid]
@@ -115,9 +142,7 @@ def sim_flow(ctx: Ctx):
             ctx.ob("FLOW:state-update:values", True, prog.where(upd),
                    "next-period states are the transition results, unchanged", lhs=v_elt)
         else:
-            ops = {(callee_name(s) or (s[1][2] if s[1][0] == "attr" else "")).split(".")[-1]
-                   for s in walk(v_elt) if s[0] == "call"}
-            bad = ops & VALUE_CHANGING
+            ops, bad = _value_ops(v_elt, vb, ns)
             ctx.ob("FLOW:state-update:values", False if bad else None, prog.where(upd),
                    f"next-period states are transformed by {sorted(bad)} after the transition functions"
                    if bad else f"next-period states are post-processed by {sorted(ops)} (not recognised)",
@@ -136,10 +161,8 @@ def sim_flow(ctx: Ctx):
             ctx.ob("FLOW:state-update:values", True, prog.where(upd),
                    "next-period states are the transition results, unchanged", lhs=v_elt)
         else:
-            ops = {(callee_name(s) or (s[1][2] if s[1][0] == "attr" else "")).split(".")[-1]
-                   for s in walk(v_elt) if s[0] == "call" and s != ns}
-            bad = ops & VALUE_CHANGING
-            ctx.ob("FLOW:state-update:values", False if bad and plain in set(walk(v_elt)) else None, prog.where(upd),
+            ops, bad = _value_ops(v_elt, plain, ns)
+            ctx.ob("FLOW:state-update:values", False if bad else None, prog.where(upd),
                    f"next-period states are transformed by {sorted(bad)} after the transition functions"
                    if bad else f"next-period states are post-processed by {sorted(ops)} (not recognised)",
                    lhs=v_elt, rhs=plain)
@@ -363,44 +386,81 @@ def data_space_layout(ctx: Ctx):
     ctx.ob("LAY1:n-agents", ok_n, prog.where(n_states) if n_states else "",
            "the number of agents is the length of a state array" if ok_n else "n_states is not len(first state array)",
            lhs=n_states or "missing")
+    # ---- the (agents x sparse-choice combinations) grid, whatever way it is built (loops, comprehensions,
+    # dict merges): located as the dict whose entries are masked, then brought to comprehension normal form
+    from lcmsa.alg import hoist, norm
+    from lcmsa.rules_kernel import comprehend, fuse_comps, renumber_bv
+
+    space0 = calls_in(tuple(frame_terms(fr)), "lcm.interfaces.Space")
+    need(space0, "no Space built")
+    sp0 = kw(space0[0], "sparse_vars")
+    masked = sp0[2] if sp0 is not None and sp0[0] in ("phi", "ifexp") else sp0
+    need(masked is not None and masked[0] == "comp" and masked[1] == "dict", "sparse_vars is not a dict of masked arrays")
+    grid_src = masked[3][0][1]
+    if grid_src[0] == "call" and grid_src[1][0] == "attr" and grid_src[1][2] == "items":
+        grid_src = grid_src[1][1]
+    def N(x):
+        return hoist(norm(renumber_bv(fuse_comps(comprehend(prog, x)))))
+
+    g = N(grid_src)
+    parts = list(g[1]) if g[0] == "bar" else [g]
+    comps = [x for x in parts if x[0] == "comp" and x[1] == "dict" and len(x[3]) == 1]
+    need(len(comps) == len(parts) and len(comps) == 2,
+         f"the combination grid is not the merge of two dict comprehensions/loops ({[x[0] for x in parts]})")
+    n_states_n = N(n_states) if n_states is not None else None
     dp = calls_in(tuple(frame_terms(fr) + loop_terms(prog, fr)), "lcm.simulate.dict_product")
-    need(dp, "create_data_scs: dict_product not called")
-    dp = dp[0]
-    prod, n_comb = ("sub", dp, ("const", 0)), ("sub", dp, ("const", 1))
-    st_loop = ch_loop = None
-    for lp in loops:
-        if lp.iter == ("call", ("attr", states, "items"), (), ()):
-            st_loop = lp
-        elif lp.iter == ("call", ("attr", prod, "items"), (), ()):
-            ch_loop = lp
-    need(st_loop is not None and ch_loop is not None,
-         "create_data_scs: loops over states.items() and over the sparse-choice product not found")
+    prod_n = N(("sub", dp[0], ("const", 0))) if dp else None
+    ncomb_n = N(("sub", dp[0], ("const", 1))) if dp else None
+    states_items = N(("call", ("attr", states, "items"), (), ()))
+    st_comp = next((c for c in comps if c[3][0][1] == states_items), None)
+    ch_comp = next((c for c in comps if c is not st_comp), None)
+    need(st_comp is not None, "no part of the combination grid iterates over states.items()")
 
-    def item(lp):
-        for n, v in lp.next.items():
-            if v[0] == "setitem":
-                return n, v
-        raise AnalysisError("loop does not fill a dict")
+    def repeat_like(c):
+        """(op, array, count) of the value of a {k: op(v, count) for k, v in ...} comprehension."""
+        tg = c[3][0][0]
+        kb, vb = tg[1] if tg[0] == "tuple" and len(tg[1]) == 2 else (None, None)
+        val = c[2][1]
+        if c[2][0] != kb or val[0] != "op" or val[1] not in ("repeat", "tile"):
+            return None
+        d = dict(val[2])
+        cnt = d.get("repeats") if val[1] == "repeat" else d.get("reps")
+        # the count does not use the comprehension's variables: number its own binders from the top level
+        return val[1], d.get("a") == vb, renumber_bv(cnt) if cnt is not None else None
 
-    gname, sv = item(st_loop)
-    _g2, cv = item(ch_loop)
-    names = [k for k in prog.loopvar_paths if k[0] == st_loop.id]
-    key_lv = next(("loopvar", lid_, n) for (lid_, n), path in prog.loopvar_paths.items() if lid_ == st_loop.id and path == (0,))
-    val_lv = next(("loopvar", lid_, n) for (lid_, n), path in prog.loopvar_paths.items() if lid_ == st_loop.id and path == (1,))
-    v = sv[3]
-    ok = (sv[2] == key_lv and callee_name(v) == "jax.numpy.repeat" and (v[2][0] if v[2] else None) == val_lv
-          and (kw(v, "repeats") or (v[2][1] if len(v[2]) > 1 else None)) == n_comb)
-    ctx.ob("LAY1:states-repeat", ok, prog.where(sv),
-           "each agent's state is repeated once per sparse-choice combination (agent-major rows)" if ok else
-           "states are not laid out as repeat(state, n_choice_combinations)", lhs=v, rhs="jnp.repeat(state, repeats=n_combinations)")
-    ckey = next(("loopvar", lid_, n) for (lid_, n), path in prog.loopvar_paths.items() if lid_ == ch_loop.id and path == (0,))
-    cval = next(("loopvar", lid_, n) for (lid_, n), path in prog.loopvar_paths.items() if lid_ == ch_loop.id and path == (1,))
-    v = cv[3]
-    ok = (cv[2] == ckey and callee_name(v) == "jax.numpy.tile" and (v[2][0] if v[2] else None) == cval
-          and (kw(v, "reps") or (v[2][1] if len(v[2]) > 1 else None)) == n_states)
-    ctx.ob("LAY1:choices-tile", ok, prog.where(cv),
-           "the sparse-choice combinations are tiled once per agent" if ok else
-           "sparse choices are not laid out as tile(choice, n_agents)", lhs=v, rhs="jnp.tile(choice, reps=n_agents)")
+    r = repeat_like(st_comp)
+    if r is None:
+        ctx.undecided("LAY1:states-repeat", "the state part of the combination grid is not {name: repeat/tile(state, n)}", prog.where(grid_src))
+    else:
+        op, arr_ok, cnt = r
+        ok = op == "repeat" and arr_ok and ncomb_n is not None and cnt == ncomb_n
+        definite = op == "tile" or (op == "repeat" and arr_ok and cnt is not None and n_states_n is not None and cnt == n_states_n)
+        ctx.ob("LAY1:states-repeat", True if ok else False if definite else None, prog.where(grid_src),
+               "each agent's state is repeated once per sparse-choice combination (agent-major rows)" if ok else
+               ("states are tiled / repeated by the number of agents: rows are not agent-major blocks of combinations" if definite
+                else "the repetition count of the states is not recognised as the number of sparse-choice combinations"),
+               lhs=str(st_comp[2][1])[:200], rhs="repeat(state, repeats=n_combinations)")
+    if ch_comp is None:
+        ctx.undecided("LAY1:choices-tile", "choice part of the combination grid not found")
+    else:
+        r = repeat_like(ch_comp)
+        it = renumber_bv(ch_comp[3][0][1])
+        from_product = prod_n is not None and it == N(("call", ("attr", ("sub", dp[0], ("const", 0)), "items"), (), ()))
+        # the raw grids of the sparse choices (what dict_product gets, or model.grids) instead of product rows
+        raw = dp and it == N(("call", ("attr", (dp[0][2][0] if dp[0][2] else kw(dp[0], "d")), "items"), (), ()))
+        no_product = not dp
+        if r is None:
+            ctx.undecided("LAY1:choices-tile", "the choice part of the combination grid is not {name: tile/repeat(x, n)}", prog.where(grid_src))
+        else:
+            op, arr_ok, cnt = r
+            ok = op == "tile" and arr_ok and from_product and n_states_n is not None and cnt == n_states_n
+            definite = op == "repeat" or raw or no_product
+            ctx.ob("LAY1:choices-tile", True if ok else False if definite else None, prog.where(grid_src),
+                   "the rows of the sparse-choice product are tiled once per agent" if ok else
+                   ("each sparse choice grid is cycled on its own / repeated: the rows do not enumerate the Cartesian product "
+                    "of the sparse choices for every agent" if definite else "tiling of the sparse choices not recognised"),
+                   lhs=str(ch_comp[2][1])[:200], rhs="tile(product row array, reps=n_agents)")
+    ctx.count("data_space_parts", 2)
     # mask and segments
     cs = calls_in(tuple(frame_terms(fr)), "lcm.simulate.create_choice_segments")
     need(cs, "create_data_scs: create_choice_segments not called")
@@ -451,7 +511,6 @@ def data_space_layout(ctx: Ctx):
         ctx.ob("LAY2:mask-period", fixed, prog.where(mask),
                "filters are evaluated with _period = the current period" if fixed else
                "the filters do not receive the current period", lhs=show(mask)[:200])
-    ctx.count("data_space_loops", 2)
 
 
 # ======================================================================================
